@@ -1,2 +1,3 @@
+@batchsz.setter
 def spec(self, value):
     self.synapse.batchsz = value
